@@ -135,12 +135,20 @@ pub fn run(args: &Args, prefix: &str) -> i32 {
             ];
             for (name, sc, cap) in small {
                 configs.push((format!("{name}-cap{cap}-d1"), base_cfg(sc.clone(), cap), 1));
-                if !th && matches!(name, "fin-only" | "uni-2x2" | "uni-open-ended") {
+                if !th {
                     configs.push((format!("{name}-cap{cap}-d2"), base_cfg(sc.clone(), cap), 2));
                 }
                 if th {
                     configs.push((format!("{name}-cap{cap}-d2"), base_cfg(sc.clone(), cap), 2));
                     configs.push((format!("{name}-cap27-d2"), base_cfg(sc, 27), 2));
+                }
+            }
+            if !th {
+                // the larger scripts over a network with at most one deviation, one capacity
+                for (name, sc) in scripts() {
+                    if matches!(name, "bidi-echo" | "two-streams") {
+                        configs.push((format!("{name}-cap30-d1"), base_cfg(sc.clone(), 30), 1));
+                    }
                 }
             }
             if th {
